@@ -71,6 +71,15 @@ def function_stage(ck, n, n_malformed):
         by_case.setdefault(id(c), {})[what] = (a, rq)
         ck.count(f"w_{what}_" + a.split(" ")[0])
     disagreements = 0
+    budget = {}            # at most 4 reports per (stream, failing input found?) so that no stream crowds out the others
+
+    def report(cls, what, rep, found):
+        budget[(cls, found)] = budget.get((cls, found), 0) + 1
+        if budget[(cls, found)] <= 4:
+            ck.violation(what, rep, found_input=found)
+        else:
+            ck.count(f"w_unreported_{cls}_{'found' if found else 'nofound'}")
+
     for c in cases:
         res = by_case.get(id(c), {})
         for what, spec_for in (("read", ("readspec",)), ("readerr", ()), ("write", ("spec", "meta")), ("writeerr", ())):
@@ -84,16 +93,16 @@ def function_stage(ck, n, n_malformed):
             side = "reader" if what.startswith("read") else "writer"
             rep = dict(_replay(c), answer=a, request=rq[:4000])
             if bad:
-                ck.violation(f"the real TFLite {side} leaves its specification on a generated file: {bad[0][1][:200]} (model vs code: {a[:120]}; "
-                             f"case {c['idx']}{' malformed' if c['malformed'] else ''})", dict(rep, spec=bad), found_input=True)
+                report(side, f"the real TFLite {side} leaves its specification on a generated file: {bad[0][1][:200]} (model vs code: {a[:120]}; "
+                       f"case {c['idx']}{' malformed' if c['malformed'] else ''})", dict(rep, spec=bad), True)
             else:
-                ck.violation(f"model of the TFLite {side} disagrees with the code: {a[:200]} (case {c['idx']}{' malformed' if c['malformed'] else ''}); "
-                             f"the Spec accepts the real output", rep, found_input=False)
+                report(side, f"model of the TFLite {side} disagrees with the code: {a[:200]} (case {c['idx']}{' malformed' if c['malformed'] else ''}); "
+                       f"the Spec accepts the real output", rep, False)
         # the Spec alone (model and code agree, or the model has no opinion)
         for s in ("readspec", "spec", "meta"):
             if s in res and not res[s][0].startswith("ok") and all(res.get(w, ("same",))[0].startswith("same") for w in ("read", "write")):
-                ck.violation(f"the real TFLite reader/writer leaves its specification ({s}): {res[s][0][:200]} (case {c['idx']})",
-                             dict(_replay(c), spec=res[s][0]), found_input=True)
+                report(s, f"the real TFLite reader/writer leaves its specification ({s}): {res[s][0][:200]} (case {c['idx']})",
+                       dict(_replay(c), spec=res[s][0]), True)
     ok_cases = [c for c in cases if c["write"] is not None and c["write"][0] == "ok"]
     return {"requests": len(reqs), "cases": len(cases), "written": len(ok_cases), "disagreements": disagreements}, cases
 
@@ -131,8 +140,13 @@ def hashseed_stage(ck, cases, hash_seeds, limit):
                 trees[int(idx)].append(tree)
     reqs = ["wsame " + " ".join(trees[c["idx"]]) for c in chosen]
     ans = ck.model(reqs)
+    shown = 0
     for c, a, ts in zip(chosen, ans, (trees[c["idx"]] for c in chosen)):
         ck.count("w_hashseed_" + a.split(" ")[0])
+        if (len(ts) != len(hash_seeds) + 1 or not a.startswith("same")):
+            shown += 1
+            if shown > 4:
+                continue
         if len(ts) != len(hash_seeds) + 1:
             ck.violation(f"the writer did not produce a file under another PYTHONHASHSEED for case {c['idx']} ({len(ts) - 1} of {len(hash_seeds)})",
                          _replay(c), found_input=True)
